@@ -215,6 +215,33 @@ class ReceiverAlias(ast.NodeTransformer):
     visit_AsyncFunctionDef = visit_FunctionDef
 
 
+class Annotator(ast.NodeTransformer):
+    """`x = v` -> `x: object = v` for plain local names inside functions (not global / nonlocal names)."""
+
+    def __init__(self) -> None:
+        self.fn: list[set[str]] = []
+
+    def visit_FunctionDef(self, node):
+        declared = {n for g in ast.walk(node) if isinstance(g, (ast.Global, ast.Nonlocal)) for n in g.names}
+        self.fn.append(declared)
+        self.generic_visit(node)
+        self.fn.pop()
+        return node
+
+    visit_AsyncFunctionDef = visit_FunctionDef
+
+    def visit_ClassDef(self, node):
+        saved, self.fn = self.fn, []
+        self.generic_visit(node)
+        self.fn = saved
+        return node
+
+    def visit_Assign(self, node):
+        if self.fn and len(node.targets) == 1 and isinstance(node.targets[0], ast.Name) and node.targets[0].id not in self.fn[-1]:
+            return ast.copy_location(ast.AnnAssign(target=node.targets[0], annotation=ast.Name(id="object", ctx=ast.Load()), value=node.value, simple=1), node)
+        return node
+
+
 def rewrite_tree(root: Path, rename: bool, mode: str = "") -> int:
     n = 0
     for f in list(root.rglob("*.py")):
@@ -242,6 +269,9 @@ def rewrite_tree(root: Path, rename: bool, mode: str = "") -> int:
             ast.fix_missing_locations(tree)
         if mode == "recv":
             tree = ReceiverAlias().visit(tree)
+            ast.fix_missing_locations(tree)
+        if mode == "annot":
+            tree = Annotator().visit(tree)
             ast.fix_missing_locations(tree)
         if mode == "flip":
             tree = BranchFlipper().visit(tree)
